@@ -118,10 +118,14 @@ pub fn line_frame<const H: usize, const T: usize>(ty: u8) {
         kani::assume(t0 != b'+' && t0 != b'-' && t0 != b':' && t0 != b'$' && t0 != b'*' && t0 != b'_');
     }
     v.push(t0);
-    v.extend_from_slice(&hdr);
+    if H > 0 {
+        v.extend_from_slice(&hdr); // (a zero-length copy from a dangling pointer costs CBMC minutes)
+    }
     v.push(b'\r');
     v.push(b'\n');
-    v.extend_from_slice(&tail);
+    if T > 0 {
+        v.extend_from_slice(&tail);
+    }
     let n = v.len();
     set_layout(&[H + 1]);
     let mut buf = BytesMut::from(&v[..]);
@@ -158,7 +162,9 @@ pub fn line_incomplete<const H: usize>(ty: u8) {
     let mut v: Vec<u8> = Vec::with_capacity(H + 1);
     let t0: u8 = if ty != 0 { ty } else { kani::any() };
     v.push(t0);
-    v.extend_from_slice(&hdr);
+    if H > 0 {
+        v.extend_from_slice(&hdr); // (a zero-length copy from a dangling pointer costs CBMC minutes)
+    }
     set_layout(&[]);
     let mut buf = BytesMut::from(&v[..]);
     let r = RespValue::decode(&mut buf);
@@ -177,10 +183,14 @@ pub fn bulk_frame<const H: usize, const P: usize>() {
     let rest: [u8; P] = kani::any();
     let mut v: Vec<u8> = Vec::with_capacity(H + P + 3);
     v.push(b'$');
-    v.extend_from_slice(&hdr);
+    if H > 0 {
+        v.extend_from_slice(&hdr); // (a zero-length copy from a dangling pointer costs CBMC minutes)
+    }
     v.push(b'\r');
     v.push(b'\n');
-    v.extend_from_slice(&rest);
+    if P > 0 {
+        v.extend_from_slice(&rest);
+    }
     let n = v.len();
     set_layout(&[H + 1]);
     let mut buf = BytesMut::from(&v[..]);
@@ -218,19 +228,23 @@ pub fn bulk_frame<const H: usize, const P: usize>() {
 
 // ---------------------------------------------------------------------------------------------------
 // family array:  * <h symbolic header bytes> CRLF  followed by K element slots of the form  <x> CRLF
-// where x is a symbolic byte: '_' is a null, '+'/'-' an empty line, ':' '$' '*' a malformed element,
-// anything else a one-letter inline command.  The declared count is symbolic (header bytes).
+// where x is a symbolic RESP type byte: '_' is a null, '+'/'-' an empty line, ':' '$' '*' a malformed element.  The declared count is symbolic (header bytes).
 // ---------------------------------------------------------------------------------------------------
 pub fn array_frame<const H: usize, const K: usize>() {
     let hdr: [u8; H] = kani::any();
     let xs: [u8; K] = kani::any();
     let mut v: Vec<u8> = Vec::with_capacity(H + 3 * K + 3);
     v.push(b'*');
-    v.extend_from_slice(&hdr);
+    if H > 0 {
+        v.extend_from_slice(&hdr); // (a zero-length copy from a dangling pointer costs CBMC minutes)
+    }
     v.push(b'\r');
     v.push(b'\n');
     let mut i = 0;
     while i < K {
+        // element type byte: one of the RESP type characters (one-letter inline commands as elements are
+        // left to the `line` family; they pull the whole inline tokenizer into every element)
+        kani::assume(xs[i] == b'_' || xs[i] == b'+' || xs[i] == b'-' || xs[i] == b':' || xs[i] == b'$' || xs[i] == b'*');
         v.push(xs[i]);
         v.push(b'\r');
         v.push(b'\n');
@@ -263,6 +277,62 @@ pub fn array_frame<const H: usize, const K: usize>() {
     std::mem::forget((r, buf, v));
 }
 
+/// Arrays with elements: the declared count is a concrete digit, followed by K complete elements of the
+/// form `+x CRLF` with x symbolic (any byte but CR).  count <= K: an array of exactly `count` elements and
+/// exactly its bytes consumed (the rest is the next frame); count > K: need more data, nothing consumed.
+/// (A symbolic count with symbolic element types makes the element loop fork 6 ways per iteration up to the
+/// unwind bound and does not finish; the header parse on arbitrary bytes is covered by `array_h*_k0` and
+/// `array_count_*`.)
+pub fn array_elems<const K: usize>(count: usize) {
+    let xs: [u8; K] = kani::any();
+    let mut v: Vec<u8> = Vec::with_capacity(4 * K + 8);
+    v.push(b'*');
+    v.push(b'0' + count as u8);
+    v.push(b'\r');
+    v.push(b'\n');
+    let mut i = 0;
+    while i < K {
+        kani::assume(xs[i] != b'\r');
+        v.push(b'+');
+        v.push(xs[i]);
+        v.push(b'\r');
+        v.push(b'\n');
+        i += 1;
+    }
+    let n = v.len();
+    set_layout(&[2, 2, 2, 2, 2, 2, 2, 2]);
+    let mut buf = BytesMut::from(&v[..]);
+    let r = RespValue::decode(&mut buf);
+    let c = classify(&r);
+    if count <= K {
+        match &r {
+            Ok(Some(RespValue::Array(items))) => {
+                assert!(items.len() == count, "C20 array has the declared number of elements");
+                assert!(buf.len() == n - 4 - 4 * count, "C20 array consumes its header and exactly its elements");
+                assert!(items.capacity() <= 2 * n + 4, "C21 array storage larger than a small multiple of the bytes received");
+                let mut i = 0;
+                while i < count {
+                    assert!(matches!(&items[i], RespValue::SimpleString(s) if s.len() == 1 && s.as_bytes()[0] == xs[i]) || xs[i] >= 128,
+                            "C20 array element differs from what was sent");
+                    i += 1;
+                }
+            }
+            Ok(Some(_)) => assert!(false, "C20 array frame decoded to a value of another type"),
+            Ok(None) | Err(RespError::Incomplete) => assert!(false, "C20 a complete array was answered with 'need more data'"),
+            Err(_) => {} // a non-UTF-8 element is a protocol error
+        }
+    } else {
+        assert!(c == 1 || c == 2, "C21 array with missing elements must not produce a value");
+        if c == 1 {
+            assert!(buf.len() == n, "C20 decoder consumed bytes although it asked for more data");
+        }
+    }
+    assert!(unsafe { VK_MAX_ALLOC } <= 64 + 40 * n, "C21 allocation larger than a small multiple of the bytes received");
+    vk_cover!(c == 0, "reach value");
+    vk_cover!(c == 1 || count <= K, "reach need-more");
+    std::mem::forget((r, buf, v));
+}
+
 /// A declared element count of up to D decimal digits with nothing after the header: the decoder must
 /// answer (need more data / error) without reserving storage for the declared count.
 pub fn array_huge_count<const D: usize>() {
@@ -290,27 +360,27 @@ pub fn array_huge_count<const D: usize>() {
     std::mem::forget((r, buf, v));
 }
 
-/// Nesting: `*1 CRLF` repeated `depth` times then `_ CRLF` (all concrete).  The decoder declares a limit
-/// (RespValue::MAX_DEPTH); one level more than the limit must be refused, and the limit itself must be a
-/// stack-safe constant.  Without a limit the recursion is unbounded = process abort on a deep frame.
-pub fn nesting(depth: usize, expect_ok: bool) {
-    let mut v: Vec<u8> = Vec::with_capacity(4 * depth + 3);
-    let mut i = 0;
-    while i < depth {
-        v.extend_from_slice(b"*1\r\n");
-        i += 1;
-    }
-    v.extend_from_slice(b"_\r\n");
-    let mut buf = BytesMut::from(&v[..]);
-    let r = RespValue::decode(&mut buf);
-    if expect_ok {
-        assert!(matches!(&r, Ok(Some(_))), "C20 nesting within the declared limit is decoded");
-    } else {
-        assert!(matches!(&r, Err(e) if !matches!(e, RespError::Incomplete)), "C21 nesting beyond the declared limit is not refused");
-    }
-    assert!(RespValue::MAX_DEPTH <= 128, "C21 declared nesting limit is not stack-safe");
+/// Nesting limit.  The decoder declares RespValue::MAX_DEPTH; unbounded recursion on a deep frame is a
+/// process abort (CBMC has no stack model, so the limit is what is checked):
+///  * entering an array at depth MAX_DEPTH is refused;
+///  * the depth is really propagated: at depth MAX_DEPTH-1 a single array is accepted, an array inside it
+///    is refused;
+///  * the limit is a stack-safe constant.
+pub fn nesting_limit() {
+    assert!(RespValue::MAX_DEPTH >= 1 && RespValue::MAX_DEPTH <= 128, "C21 declared nesting limit is not stack-safe");
+    let one: &[u8] = b"*1\r\n_\r\n";
+    let two: &[u8] = b"*1\r\n*1\r\n_\r\n";
+    let mut c = one;
+    let r = RespValue::decode_frame(&mut c, RespValue::MAX_DEPTH);
+    assert!(matches!(&r, Err(e) if !matches!(e, RespError::Incomplete)), "C21 an array at the nesting limit is not refused");
+    let mut c = one;
+    let r1 = RespValue::decode_frame(&mut c, RespValue::MAX_DEPTH - 1);
+    assert!(matches!(&r1, Ok(Some(RespValue::Array(_)))), "C20 nesting within the declared limit is decoded");
+    let mut c = two;
+    let r2 = RespValue::decode_frame(&mut c, RespValue::MAX_DEPTH - 1);
+    assert!(matches!(&r2, Err(e) if !matches!(e, RespError::Incomplete)), "C21 nesting depth is not propagated to inner arrays");
     vk_cover!(true, "reach");
-    std::mem::forget((r, buf, v));
+    std::mem::forget((r, r1, r2));
 }
 
 // ---------------------------------------------------------------------------------------------------
